@@ -1,0 +1,34 @@
+//go:build verif
+
+// Verification hooks for the cbor wire-level check (compiled only with -tags verif).
+// Add-only: nothing here is referenced by the library itself.
+
+package codec
+
+import (
+	"errors"
+	"io"
+)
+
+// VerifErrClass maps an error returned by Decode to a small stable class:
+// 0 nil, 1 input ended (io.EOF, io.ErrUnexpectedEOF, out-of-bounds skip),
+// 4 maximum depth exceeded, 2 anything else.
+func VerifErrClass(err error) int {
+	if err == nil {
+		return 0
+	}
+	var oob *outOfBoundsError
+	switch {
+	case errors.Is(err, io.ErrUnexpectedEOF), errors.Is(err, io.EOF), errors.As(err, &oob):
+		return 1
+	case errors.Is(err, errMaxDepthExceeded):
+		return 4
+	}
+	return 2
+}
+
+// VerifHalfFloatToFloatBits exposes halfFloatToFloatBits.
+func VerifHalfFloatToFloatBits(h uint16) uint32 { return halfFloatToFloatBits(h) }
+
+// VerifFloatToHalfFloatBits exposes floatToHalfFloatBits.
+func VerifFloatToHalfFloatBits(f uint32) uint16 { return floatToHalfFloatBits(f) }
